@@ -265,6 +265,7 @@ def run_dataset(case: dict) -> dict:
     violations, obs, sigs = [], Counter(), []
     try:
         threads = T or (os.cpu_count() or 1)
+        baseline_threads = threading.active_count()
         allowed_ahead = math.ceil(shuffle / eps) + bound(threads, threads)
         needed = math.ceil(k / eps)
         sizes = {"S": needed + allowed_ahead + 6, "4S": 4 * (needed + allowed_ahead + 6)}
@@ -314,6 +315,13 @@ def run_dataset(case: dict) -> dict:
                             # TensorFlow's native TFRecord readers and any read that bypasses the wrappers
                             native = iface == "tfds" and fmt == "tfrec"
                             shard_files = [root / s.file_infos[0].file_path for s in dataset.shard_info_iterator("train")]
+                            if native:
+                                # let the worker threads of the streams abandoned just before finish their current
+                                # TFRecord read: destroying an endless native iterator while Python threads are
+                                # still inside TensorFlow ops was seen to block inside TensorFlow (DESIGN §4 (iv)/(v))
+                                settle_until = time.monotonic() + 3.0
+                                while threading.active_count() > baseline_threads and time.monotonic() < settle_until:
+                                    time.sleep(0.02)
                             try:
                                 watcher = OpenWatcher(shard_files).__enter__()
                             except OSError:
